@@ -11,6 +11,7 @@ VERIF = os.path.dirname(HERE)
 props = [json.loads(l) for l in open(os.path.join(VERIF, 'properties.jsonl'))]
 
 BROKER_NOTE = 'Lean kernel + 3 standard axioms; the asyncio transport/event-loop contract is modelled by the event vocabulary (and implemented by the harness fakes); SHA-1, os.urandom, the credential store are parameters of the model; the tie is the correspondence run of this check (online-generated histories on the real Server/Connection vs the model, action logs + registry + gauges compared).'
+CLIENTS = 'Lean kernel + 3 standard axioms; asyncio task machinery, Twisted ClientService, the queues and the transports are library code represented by the event vocabulary (scripted attempts, fake transports, virtual time); SHA-1 is a parameter; the tie is the correspondence run of this check on the real session classes.'
 TEXT = {
     'C01': ('Theorems over ALL event histories of the broker model: C01.delivery_log (the PUBLISH frames written to a connection are exactly, in order, the accepted publishes listing it as recipient), exactly_entitled (recipients = connections subscribed and open at that moment, once each), publish_exact (what one accepted publish does to every action log), frame_carries, common_order (any two receivers see sub-sequences of one acceptance order). Invariant proof by a generic preservation principle over the model primitives (Lemmas/BrokerPres, BrokerReg, BrokerDeliv). Tie + failing-input search: broker engine with an independent spec-level shadow.', BROKER_NOTE),
     'C03': ('Theorems over ALL histories: C03.accepted_sound / every_delivery_sound (every PUBLISH frame ever written names the ident its sender was authenticated as and a channel on that identity\'s publish list) and reject_publish (any other ident string or channel, in ANY state: ERROR + close for the sender, accepted log / registry / gauges / every other connection unchanged).', BROKER_NOTE),
@@ -25,6 +26,9 @@ TEXT = {
     'C18': ('Theorems for ALL parsed contents and ALL reload sequences: C18.all_or_nothing (after a reload the database is exactly the previous one, or the complete new mapping, the latter iff the document is an object whose every entry passes the checks), entry_ok_iff, invalid_keeps_everything, reload_seq (after any sequence: the last valid file\'s mapping, or the initial database). Tie: real Authenticator.load() on valid tables, EVERY truncation prefix of a valid file, type-mutated entries, non-JSON, invalid UTF-8, missing and empty files, in sequences.', 'Lean kernel + 3 standard axioms; json.load is an input of the model; which file-system events trigger load() (inotify) is not modelled — partial there.'),
     'C19': ('Theorems over ALL histories (gauge invariant by induction over every model primitive, Lemmas/BrokerGauge): C19.connections_gauge (= number of registered connections) with quiescent_registered_iff_open, subscription_gauge (per identity AND channel = number of connections of that identity subscribed to it; never negative; no single-authentication assumption after fix D7), channel_total (per channel the gauges add up to the number of subscribed connections), all_zero_when_gone, made_and_lost_once, redundant_requests_move_nothing.', BROKER_NOTE + ' prometheus_client arithmetic is modelled by integer maps.'),
     'C09': ('Theorems over ALL histories and ALL continuations: C09.lost_forgets (after connection_lost in ANY state the record is unregistered, holds no subscription, is in no registry entry), lost_stable / unregistered_stable (stays so under every later event: late verdicts, deadline timers, other traffic), others_unaffected, unregistered_forgotten (covers the broker-forced loss).', BROKER_NOTE),
+    'C11': ('One parametrized session model (asyncio ClientSession: autoStart, no loss delay; Twisted ClientSessionService: startService, retry delay). Theorems over ALL event sequences (application calls interleaved with accept / refuse / data in any chunking / loss / clock): C11.Aio.nothing_before_info (nothing is written on a connection before its OP_INFO was handled), first_frames (everything written on a connection begins with the OP_AUTH for the nonce of an OP_INFO that arrived on THAT connection, then one OP_SUBSCRIBE per channel of the set recorded then), handshake_uses_current_set, wanted_set (the set is a function of the application calls alone: subscribed and not since unsubscribed, including calls made while disconnected; duplicate-free). The blocking Client and the blocking thread session are being added (model + engine in progress): partial until then.', CLIENTS),
+    'C12': ('Theorems over ALL event sequences: C12.Aio.handed_in_order (messages handed to read() so far ++ messages still queued = the OP_PUBLISH frames dispatched so far, in order, once, fields as decoded; a waiting reader implies an empty queue) and frames_are_the_bytes (the frames dispatched on a connection re-encode to exactly the bytes received on it minus the buffered tail — any chunking). asyncio and Twisted sessions; blocking Client / thread session in progress: partial until then.', CLIENTS),
+    'C13': ('Bounded-response form of the liveness claim, for ANY state of each phase: C13.Aio.reconnects (lost -> new attempt at once (asyncio) or after the retry delay (Twisted); refused -> retry after 1 s; accepted -> fresh connection; OP_INFO -> AUTH + SUBSCRIBE for the wanted set), stays_started / started / start_attempts; close_bounded (close()/stopService() in EVERY started state: returns at once without a live transport, else closes it and returns at its loss), no_attempt_after_close (ALL continuations). Client.run in progress: partial until then.', CLIENTS),
     'C05': ('Theorem C05.roundtrip: for EVERY in-range message of every opcode the builder succeeds, its 4-byte header equals the bytes produced, the stream decoder yields exactly that one frame and the reader returns the original fields; plus obligations that the extracted limit table admits everything the builders emit. Tie: constants regenerated from protocol.py each run + differential run of msg*/Unpacker/read* against the model.',
             'Lean kernel + 3 standard axioms; struct, the UTF-8 codec and SHA-1 are modelled (each compared with the implementation on every run); the correspondence generator bounds what the tie sees.'),
     'C06': ('Theorems C06.feed_chunks / feed_eq_drain_flatten / prompt / accounted: for every frame sequence and EVERY chunk list (induction on the chunk list, no bound) feeding yields exactly the frames, once, in order, each as soon as complete, leaving exactly the incomplete tail. Tie: exhaustive cut patterns of short streams and random cuts of long ones through the real Unpacker and the model.',
@@ -33,6 +37,7 @@ TEXT = {
             'Lean kernel + 3 standard axioms; struct.unpack signedness and the exception hierarchy are modelled and checked by the monitor.'),
 }
 
+CLIENTS = 'Lean kernel + 3 standard axioms; asyncio task machinery, Twisted ClientService, the queues and the transports are library code represented by the event vocabulary (scripted attempts, fake transports, virtual time); SHA-1 is a parameter; the tie is the correspondence run of this check on the real session classes.'
 TECH = 'Lean 4 theorem over an executable model (kernel-checked, all inputs) + model/code correspondence check (differential, native Lean driver) + implementation-trace monitors for failing-input search'
 
 checks, na = [], []
